@@ -19,6 +19,7 @@ import tempfile
 
 import pyrtma.parser as P
 from engine.standins import NullLogger
+from engine import realinit
 from harness.common import sh, set_shard, verdict, reached  # noqa: F401
 
 POOL = ["Alpha", "Beta", "Gamma"]
@@ -127,12 +128,8 @@ def scenario(n1, v1, n2, v2):
         data[FILES[place[k]]].setdefault(sec, {})[nm] = body
     FakeYAML.data = data
     FakeYAML.loads = {}
-    p = object.__new__(P.Parser)
-    # the attributes Parser.__init__ sets, without its logging handlers
-    p.included_files, p.current_file, p.root_path, p.debug = [], pathlib.Path(), pathlib.Path(), False
-    p.validate_alignment, p.auto_pad, p.import_coredefs = True, True, bool(sh("coredefs", 0))
-    p.logger = NullLogger()
-    p.clear()
+    # the repository's own Parser.__init__, without its logging handlers
+    p = realinit.parser(P, validate_alignment=True, auto_pad=True, import_coredefs=bool(sh("coredefs", 0)))
     exc = None
     cwd = os.getcwd()
     try:
